@@ -25,16 +25,26 @@ TIERS = {
 }
 RULE = ('Each run is one seeded history interleaving writes {update_components, update_values_from_data (same shape / new shape), '
         'replace a group state, in-place edit of a top-level non-memoised state (range bounds, multi-range pairs, ROI move_to, mask), '
-        'add component, add/remove link, new/remove group, rewrite a data file + simulated poll tick -> LoadLog.reload} with '
-        'reads {mask, value, statistic, histogram, state copy; repeated; under views} and 1-3 checkpoints. Non-trivial: at least one '
+        'add component, add/remove link, new/remove group, rewrite a data file + simulated poll tick -> LoadLog.reload, update a kept '
+        'refresh source, refresh again from it, hand one array object to two datasets, create a selection outside any group, put a '
+        'replaced state object back on a group} with '
+        'reads {mask, value, statistic, histogram, state copy, free-state mask; repeated; under views; in 40% of runs also a hub '
+        'listener that evaluates the sender\'s selections inside every message handler; in 4-5% a real histogram viewer} and 1-3 '
+        'checkpoints. Non-trivial: at least one '
         'checkpoint compared >=1 group mask after >=1 write that followed >=1 read. distinct_nontrivial counts distinct '
         '(last write kind, last read kind, #datasets, #groups, state-class multiset of the groups, #writes-after-read) fingerprints at checkpoints.')
 EXPLANATION = ('Observables compared at a checkpoint: every component value of every dataset (incl. derived and linked), every group mask '
                'on every dataset (or "incompatible"), min/max/sum/mean of numeric components with and without each group state, a '
-               'fixed-range histogram with each group state. World B is rebuilt from reset process globals with the same uuid / hash streams.')
-REAL = ['glue.core.decorators (memoize)', 'glue.core.subset', 'glue.core.data', 'glue.core.subset_group', 'glue.core.link_manager',
+               'fixed-range histogram with each group state, masks of free states. World B is rebuilt from reset process globals with the '
+               'same uuid / hash streams. Independent of the twin: each tracked state vs a never-evaluated clone of itself (at checkpoints, '
+               'and inside the listener at NumericalDataChangedMessage); stored values of every dataset vs the last write to that dataset '
+               '(after every op); what the histogram viewer shows vs the twin\'s compute_histogram; values reached through one direct link '
+               'vs the registered link functions.')
+REAL = ['glue.core.decorators (memoize)', 'glue.core.subset', 'glue.core.data', 'glue.core.subset_group', 'glue.core.link_manager', 'glue.core.hub',
+        'glue.viewers.histogram (state, layer artist, viewer; matplotlib Agg)',
         'glue.core.data_factories (load_data, LoadLog, FileWatcher)', 'real CSV files']
-STUB = ['poll timer (SimTimer on a discrete-event clock)', 'uuid and identity-hash streams', 'GC schedule']
+STUB = ['poll timer (SimTimer on a discrete-event clock)', 'uuid and identity-hash streams', 'GC schedule',
+        'fast_histogram.histogram1d only for ranges narrower than 1e-300 (the C function segfaults there); real otherwise']
 ASSUMPTIONS = ['both worlds run the same glue code: a bug that is wrong in the same way with warm and cold caches is invisible here',
                'generator guards exclude the write patterns of the open findings listed in known_findings.json',
                'sampling, not proof']
